@@ -1,5 +1,6 @@
 /* C14 - BOUNDED DRIVE of the really lowered generator_aggregator coroutine (DESIGN 3.8).  Never counted as proof.
- * Scenarios: real C++ in drivers/c14_aggregator.cpp.  n <= 3 scripted SYNCHRONOUS sources of length <= 2 (one may throw), consumer by
+ * Scenarios: real C++ in drivers/c14_aggregator.cpp.  n <= 3 scripted SYNCHRONOUS sources of length <= 2 (DRIVE aggr: one may throw, the
+ * consumer stops at the exception; DRIVE aggr_t at the end of this file: several may throw, the consumer goes on), consumer by
  * next()/value() or by call-to-future, optional early destruction.  The harness runs EVERY shape of the unit one after the other (plain
  * loops: after unwinding each run has a concrete shape, the VALUES stay symbolic) and resets models and counters in between.
  * Values carry a tag in the top byte (source, index) so that an observed value can be attributed to the yield it came from; the low
@@ -65,8 +66,10 @@ void h_drive(void) {
       __CPROVER_assert(NOBS == total, "multiset union: the aggregate yields exactly as many values as its sources together - nothing lost (also not by a source's exception), nothing invented");
       for (int i = 0; i < 3; i++) if (i < n) { int pa = -1, pb = -1; CHECK_SOURCE(i, k[i], a[i], b[i], pa, pb); }
       if (throwing) {
+        /* the consumer of THIS drive stops at the first exception it gets (shapes with exactly one thrower; several throwers and the consumer
+         * that goes on after the exception: DRIVE aggr_t below) */
         __CPROVER_assert(*G_EXC_N == 1 && *G_EXC_VAL == e, "the source's exception is reported to the consumer, exactly once");
-        __CPROVER_assert(*G_EXC_AT == total && END == 0, "the exception is the last thing the consumer sees (after every value of every source); no regular end on top of it"); }
+        __CPROVER_assert(*G_EXC_AT == total && END == 0, "a consumer that stops at the exception has lost nothing: every value of every source came before it, and no end indication was given before it"); }
       else __CPROVER_assert(END == 1 && *G_EXC_N == 0, "the aggregate ends when - and only when - all sources have ended; exactly one end indication"); }
     else {
       __CPROVER_assert(NOBS == stop && END == 0 && *G_EXC_N == 0, "the consumer saw exactly the values it asked for before dropping the aggregate");
@@ -115,5 +118,62 @@ void h_drive(void) {
     CHECK_HEAP(n + 1);
     runs++; }
   __CPROVER_assert(runs == NSH, "drive: every shape was run");
+  __CPROVER_assert(0, "SENTINEL reachable: all shapes completed"); }
+#endif
+
+/* ===== added after the audit of group E (D4, W1, W6) ============================================================================== *
+ * DRIVE aggr_t: shapes { n, style, pre, kind0, k0, kind1, k1, kind2, k2 }.  SEVERAL sources may throw, each a payload of its own (top byte
+ * 0x71 + i, low 24 bits symbolic); the consumer goes on after every exception, stops at the end indication (or at
+ * no_more_values_exception, or after values + throwers + 1 steps), samples done() / operator bool and asks once more after an end.
+ * pre = 1: the consumer took the first value of source 0 itself before handing it to the aggregator (an already-stepped source).
+ * Oracle, clause by clause from the property statement:
+ *   "every source value exactly once, each source's values in that source's order"  -> CHECK_SOURCE, NOBS == total
+ *   "A source's exception does not lose the other sources' values"                  -> the same two checks, with throwers present
+ *   "... and is reported to the consumer"                                           -> PER SOURCE: the payload of every throwing source is
+ *        reported exactly once; nothing else is reported.  (The former oracle asked for ONE report with at most one thrower - copied from
+ *        the code, which keeps only the exception caught last: generator_aggregator.h `exp = std::current_exception()` overwrites.)
+ *   "ending when and only when all sources have ended"  + C13 "followed by a single end-of-sequence indication" -> after the last value /
+ *        exception the aggregate is finished, says so, and the consumer that goes on gets the end indication (next(): false, no exception;
+ *        call: a future without value or no_more_values_exception), also when the aggregate's body ended by rethrowing. */
+#ifdef DRIVE_aggr_t
+struct shape_t { cv_i32 n, style, pre, kind0, k0, kind1, k1, kind2, k2; };
+static const struct shape_t SHT[] = { AGG_SHAPES };
+#define NSHT ((int)(sizeof(SHT) / sizeof(SHT[0])))
+#define XEXC_VAL(i) ((*G_XEXC_VAL)[i])
+cv_i32 in_shape;
+void h_drive(void) {
+  unsigned runs = 0;
+  for (int s = 0; s < NSHT; s++) {
+    const cv_i32 n = SHT[s].n, style = SHT[s].style, pre = SHT[s].pre; const cv_i32 kind[3] = {SHT[s].kind0, SHT[s].kind1, SHT[s].kind2}, k[3] = {SHT[s].k0, SHT[s].k1, SHT[s].k2};
+    in_shape = s;
+    drive_reset(); unsigned vec0 = gh_vec_attached;
+    cv_i32 a[3], b[3], e[3]; for (int i = 0; i < 3; i++) { a[i] = SYM(i, 0); b[i] = SYM(i, 1); e[i] = ((cv_i32)(0x71 + i) << 24) | ((cv_i32)nondet_int() & 0xFFFFFF); }
+    int total = 0, throwing = 0; for (int i = 0; i < 3; i++) if (i < n) { total += k[i]; throwing += kind[i]; }
+    if (pre) total -= 1;
+    drive_aggr_t(n, style, pre, total + throwing + 1, kind[0], k[0], a[0], b[0], e[0], kind[1], k[1], a[1], b[1], e[1], kind[2], k[2], a[2], b[2], e[2]);
+    __CPROVER_assert(cv_exc_pending == 0 && *G_OTHER_EXC == 0, "drive: no stray exception reaches the consumer");
+    if (pre) __CPROVER_assert(*G_PRE_OK == 1 && *G_PRE_VAL == a[0], "the value the consumer took from source 0 beforehand is that source's 1st value");
+    __CPROVER_assert(NOBS == total, "multiset union: the aggregate yields exactly as many values as its sources (still) have together - nothing lost (also not by a source's exception), nothing invented");
+    for (int i = 0; i < 3; i++) if (i < n) { int pa = -1, pb = -1;
+      if (i == 0 && pre) CHECK_SOURCE(i, k[i] - 1, b[i], b[i], pa, pb);        /* an already-stepped source continues where the consumer left it */
+      else CHECK_SOURCE(i, k[i], a[i], b[i], pa, pb); }
+    /* per source: its exception is reported, exactly once */
+    int every_thrower_once = 1, foreign = 0;
+    for (int i = 0; i < 3; i++) { int c = 0; for (int j = 0; j < 4; j++) if (j < (int)*G_EXC_N && XEXC_VAL(j) == e[i]) c++;
+      if (i < n && kind[i]) { if (c != 1) every_thrower_once = 0; } else if (c != 0) foreign = 1; }
+    __CPROVER_assert(every_thrower_once, "C14-FINDING-two-throwers: the exception of EVERY throwing source is reported to the consumer, exactly once (per-source oracle)");
+    __CPROVER_assert(!foreign && (int)*G_EXC_N <= throwing, "no exception is reported that no source threw, none more often than thrown");
+    /* the end (units with several throwers define AGG_NO_AFTER_CLAUSE: there the subject is the per-source report; the end of an aggregate
+     * whose body ended by an exception is checked on the single-thrower shapes of unit after_exc) */
+    const int nmv_main = (int)*G_NMV - (*G_AGAIN == (cv_i32)-2 ? 1 : 0);     /* no_more_values_exception seen before the extra question at the very end */
+#ifndef AGG_NO_AFTER_CLAUSE
+    __CPROVER_assert(*G_FIN_DONE == 1 && *G_FIN_BOOL == 0 && (style == 0 ? (END == 1 && nmv_main == 0) : (END + nmv_main == 1)),
+      "C13-FINDING-after-exception (aggregate): after the last value / exception the aggregate is finished, says so (done() true, operator bool false) and the consumer that goes on gets exactly one end indication (next(): false, no exception; call: a future without value or no_more_values_exception)");
+#endif
+    __CPROVER_assert(*G_AGAIN == 9 || *G_AGAIN == 0 || (style == 1 && *G_AGAIN == -2), "asking once more after the end indication: the end again (call: or no_more_values_exception), never a value, never an exception of a source");
+    __CPROVER_assert(*G_CTOR == n && *G_DTOR == n, "every source's locals are destroyed exactly once");
+    CHECK_HEAP(n + 1);
+    runs++; }
+  __CPROVER_assert(runs == NSHT, "drive: every shape was run");
   __CPROVER_assert(0, "SENTINEL reachable: all shapes completed"); }
 #endif
